@@ -12,6 +12,7 @@ import (
 
 func init() {
 	zzverif.Register("VerifC02Twin", VerifC02Twin)
+	zzverif.Register("VerifC02Neighbour", VerifC02Neighbour)
 	zzverif.Register("VerifC02Notation", VerifC02Notation)
 	zzverif.Register("VerifC02NotationDeep", VerifC02NotationDeep)
 	zzverif.Register("VerifC02Kinds", VerifC02Kinds)
@@ -462,6 +463,100 @@ func VerifC02Twin() {
 		before += p.line(i)
 	}
 	c02CheckAfter(ps, "twin", before)
+}
+
+// VerifC02Neighbour: the verdict and the message of a transaction are a function of that
+// transaction alone, also with respect to the transactions that stand BEFORE it in the same
+// document. The transaction of VerifC02Twin (balanced or unbalanced, with a unit or total cost)
+// is analysed alone and, on another fresh server, behind a neighbour of every verdict class
+// that uses the same commodities: two amount-less postings with an amount before, between or
+// after them, one amount-less posting, an unbalanced one, a balanced one, bracketed ones. The
+// UNBALANCED / MULTIPLE_INFERRED diagnostics on the transaction's lines (code, message, range
+// relative to its header) have to be the same in both analyses, and the neighbour alone has to
+// keep its own verdict when the transaction follows it. All values concrete.
+func VerifC02Neighbour() {
+	qty := []string{"10", "3"}[zzverif.Choice("qty", 2)]
+	price := []string{"150", "0.5"}[zzverif.Choice("price", 2)]
+	counter := []string{"1500", "150", "1.5", "20"}[zzverif.Choice("counter", 4)]
+	cost := 1 + zzverif.Choice("cost", 2)
+	kind := []int{0, 2}[zzverif.Choice("kind", 2)]
+	ps := []c02Posting{
+		{kind: kind, has: true, amt: c02Lit(false, qty, 1), cost: cost, costAmt: c02Lit(false, price, 0)},
+		{kind: kind, has: true, amt: c02Lit(true, counter, 0)},
+	}
+	if zzverif.Choice("third", 2) == 1 { // one amount-less posting absorbs the remainder
+		ps = append(ps, c02Posting{kind: kind})
+	}
+	with := func(neg bool, digits string, ci int) c02Posting { return c02Posting{has: true, amt: c02Lit(neg, digits, ci)} }
+	none := c02Posting{}
+	var nb []c02Posting
+	switch zzverif.Choice("neighbour", 8) {
+	case 0:
+		nb = []c02Posting{with(false, "50", 0), none, none}
+	case 1:
+		nb = []c02Posting{none, with(false, "50", 0), none}
+	case 2:
+		nb = []c02Posting{none, none, with(false, "50", 0)}
+	case 3:
+		nb = []c02Posting{with(false, "70", 1), none}
+	case 4:
+		nb = []c02Posting{with(false, "50", 0), with(true, "43", 0)}
+	case 5:
+		nb = []c02Posting{with(false, "50", 0), with(true, "50", 0)}
+	case 6:
+		nb = []c02Posting{{kind: 2, has: true, amt: c02Lit(false, "5", 1)}, {kind: 2}, none, none}
+	default:
+		nb = []c02Posting{{has: true, amt: c02Lit(false, "2", 1), cost: 3 - cost, costAmt: c02Lit(false, "7", 0)}, none, {kind: 1}, none}
+	}
+	txText := "2024-01-15 x\n"
+	for i, p := range ps {
+		txText += p.line(i)
+	}
+	nbText := "2024-01-14 t\n"
+	for i, p := range nb {
+		nbText += p.line(i)
+	}
+	render := func(doc string, from, to int) []string {
+		s := NewServer()
+		out := []string{}
+		for _, d := range s.analyze(doc, nil) {
+			l := int(d.Range.Start.Line)
+			if l < from || l >= to {
+				continue
+			}
+			code, _ := d.Code.(string)
+			out = append(out, code+"|"+d.Message+"|"+zzverif.Itoa(l-from)+":"+zzverif.Itoa(int(d.Range.Start.Character))+"-"+zzverif.Itoa(int(d.Range.End.Line)-from)+":"+zzverif.Itoa(int(d.Range.End.Character)))
+		}
+		return out
+	}
+	nTx, nNb := 1+len(ps), 1+len(nb)
+	alone := render(txText, 0, nTx)
+	nbAlone := render(nbText, 0, nNb)
+	k := zzverif.Choice("sep", 3)
+	sep := []string{"\n", "", "\n; c\n\n"}[k]
+	gap := []int{1, 0, 3}[k]
+	both := nbText + sep + txText
+	zzverif.Observe("doc", both)
+	zzverif.Observe("alone", alone)
+	zzverif.Assert(c02SameList(alone, render(both, nNb+gap, nNb+gap+nTx)), "neighbour: the diagnostics of a transaction do not depend on the transaction before it")
+	zzverif.Assert(c02SameList(nbAlone, render(both, 0, nNb)), "neighbour: the diagnostics of a transaction do not depend on the transaction after it")
+	// and in the other order
+	both2 := txText + sep + nbText
+	zzverif.Assert(c02SameList(alone, render(both2, 0, nTx)), "neighbour: the diagnostics of the first transaction do not depend on the one after it")
+	zzverif.Assert(c02SameList(nbAlone, render(both2, nTx+gap, nTx+gap+nNb)), "neighbour: the diagnostics of the second transaction do not depend on the one before it")
+	zzverif.Reach("C02.neighbour")
+}
+
+func c02SameList(a, b []string) bool {
+	if len(a) != len(b) {
+		return false
+	}
+	for i := range a {
+		if a[i] != b[i] {
+			return false
+		}
+	}
+	return true
 }
 
 func c02StripDot(s string) string {
